@@ -9,6 +9,7 @@ RULE = ("the C12 stream (command x parameter x raw-kind matrix, valid and single
         "missing column, ragged rows, blank lines, non-numeric cells, columns of different length); the exception type at the "
         "from_source()/run() boundary is recorded, and a sample of the models plus every CSV fault is run through the "
         "command-line entry point (exit status, stderr). non-trivial = distinct faulted, kind-confused or corrupted input")
+RULE += (" Also EEMS 2.0 forms whose naming arguments are odd values, Command objects of another Program as references, output locations whose folder cannot be created, working_dir=''.")
 TRUSTED = c12.TRUSTED
 ASSUMPTIONS = ["interpreter-level failures (RecursionError on ~1000-deep lists, MemoryError) and undecodable command-file bytes are outside the model"]
 
